@@ -17,6 +17,10 @@ RULE = ("exhaustive: every rank 0..sum_{n<=N} n! (unrank, rank(unrank)), every p
         "counts, non-permutation and non-integer input of the validated constructor, bad characters. "
         "non-trivial = the argument has length >= 2 (generators: n >= 2, ranks: k >= 2, standardisation: a repeated "
         "value or an inversion is present); distinct = distinct op lines"
+        ' repr texts: the real repr text of every permutation of length <= N, of tuples over {0,1,3,10} of length <= 3, of '
+        'long permutations (<= 1000) and tuples with numerals up to 31 digits, of every shading (in every listing order) of '
+        'the patterns of length <= 1 and random shadings up to length 30 is read by eval and by the model parser; malformed '
+        'texts = all one-character edits of 13 base texts + token soups.'
         ' Hardening pass 2: stream `large` (every non-enumerating operation at lengths 9-12, 21-40, 64-70, ~200, ~401, ~1000; mesh ranks for patterns of length 4-33); Perm / MeshPatt operands of heavy lines are objects with a past (past.mkperm_u/mkmesh_u, e.g. shade() of a ranked pattern, unrank of a rank, of_length items); arguments of to_standard / one_based are changed after the call.')
 ASSUMPTIONS = [
     "model/implementation agreement outside the enumerated and sampled inputs is assumed",
@@ -25,9 +29,20 @@ ASSUMPTIONS = [
     "Perm.rank is modelled for permutations only (on other tuples Python's val - ordered_pos can be negative)",
     "from_string / from_iterable_validated(str): ASCII characters only (Python's int() also accepts other Unicode decimal digits)",
     "values handed to to_standard are represented in the model by naturals after an order-preserving encoding",
+    "repr texts: Python's eval on the sub-grammar of repr texts is modelled by Model.parseRepr / evalMeshRepr (ASCII "
+    "digits; CPython's 4300-digit limit for integer literals is not modelled)",
 ]
-PARTIAL = ["repr_roundtrip: eval(repr(p)) == p - repr text compared with the model and eval round trip checked by "
-           "correspondence only (Python eval is not modelled)",
+PARTIAL = ["repr_roundtrip: eval(repr(p)) == p is PROVED for the model reading of the text (C09.repr_roundtrip, "
+           "parseRepr_only_image / parseRepr_iff, mesh_repr_roundtrip, mesh_repr_eval_ok, parseMeshRepr_only_image: "
+           "Model.parseRepr / evalMeshRepr accept exactly the texts repr writes and read them back); what is still only "
+           "evaluated by correspondence is that Python's eval, restricted to that sub-grammar (identifier Perm / MeshPatt, "
+           "parentheses, tuple display of decimal naturals with the one-element trailing comma, list display of pairs), IS "
+           "this parser: streams repr-read (the real repr text of the implementation -> eval vs. model parser), "
+           "repr-malformed (edits of repr texts and token soups over the alphabet `Perm(), 0-9 []MeshPatt`: same value "
+           "or both reject), *-repr-eval.  Outside the comparison: texts Python reads leniently as a Perm / MeshPatt x "
+           "with repr(x) != text (other whitespace, redundant parentheses, trailing commas, Perm(), Perm(Perm(..)), 00, "
+           "unsorted / repeated cells) - the model parser rejects them by design, they are dropped from repr-malformed and "
+           "counted in the notes; the class of the exception of a rejection is not compared",
            "mesh unrank/rank inverse is stated on shadings as sets of cells (the model lists the frozenset in increasing bit order)"]
 TRUSTED = ["CPython bisect, sorted stability, itertools.permutations order, functools.lru_cache, bin, int(str)"]
 
@@ -50,6 +65,57 @@ def pint(s):
 def pstr(s):
     assert s.startswith("s:")
     return s[2:]
+
+
+def ftext(t):
+    """a text with blanks as one protocol token (`~` stands for a blank; the texts never contain `~`)"""
+    assert "~" not in t and "\n" not in t
+    return "s:" + t.replace(" ", "~")
+
+
+def ptext(s):
+    assert s.startswith("s:")
+    return s[2:].replace("~", " ")
+
+
+def _evaltext(text):
+    """Python's `eval` on the text with the two class names in scope; None = rejected with any exception (outside the
+    sub-grammar Python raises SyntaxError, TypeError, NameError or the constructor's AssertionError: the class of the
+    exception is not compared, a rejection is a rejection)"""
+    import warnings
+    try:
+        with warnings.catch_warnings():
+            warnings.simplefilter("ignore")         # (SyntaxWarning "perhaps you missed a comma")
+            return eval(text, {"__builtins__": {}, "Perm": Perm, "MeshPatt": MeshPatt})  # pylint: disable=eval-used
+    except Exception:  # pylint: disable=broad-except
+        return None
+
+
+def _plainnat(v):
+    return type(v) is int and v >= 0
+
+
+def _read_perm(text):
+    """eval(text) as a Perm of plain non-negative ints in our encoding, else NONE"""
+    v = _evaltext(text)
+    if type(v) is Perm and all(_plainnat(x) for x in v):
+        return fseq(v)
+    return "NONE"
+
+
+def _read_mesh(text):
+    v = _evaltext(text)
+    if type(v) is MeshPatt and type(v.pattern) is Perm and all(_plainnat(x) for x in v.pattern):
+        return fmesh(v)
+    return "NONE"
+
+
+def lenient(text):
+    """Python reads the text as a Perm / MeshPatt x although it is not the canonical spelling repr(x) (other
+    whitespace, redundant parentheses, trailing commas, Perm(), Perm(Perm(..)), 00, lists that are unsorted or
+    repeat a cell, keyword-free variants ...): outside the modelled sub-grammar, excluded from `repr-malformed`"""
+    v = _evaltext(text)
+    return type(v) in (Perm, MeshPatt) and repr(v) != text
 
 
 def fints(l):
@@ -298,6 +364,22 @@ def _impl(op, a):
         return guarded(lambda: str(_P(a[0])))
     if op == "repr":
         return guarded(lambda: repr(_P(a[0])))
+    if op == "reprparse":
+        return guarded(lambda: _read_perm(ptext(a[0])))
+    if op == "reprread":
+        def rr():
+            t = repr(_P(a[0]))
+            return _read_perm(t) if t == ptext(a[1]) else "TEXT:" + t
+        return guarded(rr)
+    if op == "mrepr":
+        return guarded(lambda: repr(_M(a[0], a[1])))
+    if op == "mreprparse":
+        return guarded(lambda: _read_mesh(ptext(a[0])))
+    if op == "mreprread":
+        def mr():
+            t = repr(_M(a[0], a[1]))
+            return _read_mesh(t) if t == ptext(a[2]) else "TEXT:" + t
+        return guarded(mr)
     if op == "strrt":
         return guarded(lambda: fseq(Perm.from_string(str(_P(a[0])))))
     if op == "reprrt":
@@ -423,8 +505,13 @@ def oracle(op, a):
     if op == "strrt":
         p = pseq(a[0])
         return fseq(p) if is_perm(p) and len(p) <= 10 else None
-    if op in ("reprrt", "onert"):
-        return fseq(pseq(a[0]))
+    if op in ("reprrt", "onert", "reprread"):
+        return fseq(pseq(a[0]))         # eval(repr(p)) == p
+    if op == "mreprread":
+        p, c = pseq(a[0]), pcells(a[1])
+        if all(0 <= x <= len(p) and 0 <= y <= len(p) for x, y in c):
+            return "%s/%s" % (fseq(p), fcells(set(c)))
+        return None
     if op == "repr":
         p = pseq(a[0])
         inner = "()" if not p else "(%d,)" % p[0] if len(p) == 1 else "(" + ", ".join(map(str, p)) + ")"
@@ -486,8 +573,12 @@ def nontrivial(op, a, out):
         return a[0].count(",") >= 1
     if op in ("munrank", "mrankunrank"):
         return int(a[1]) >= 1
-    if op in ("mrank", "munrankrank"):
+    if op in ("mrank", "munrankrank", "mrepr", "mreprread"):
         return a[1] != "_"
+    if op == "reprread":
+        return len(pseq(a[0])) >= 2
+    if op in ("reprparse", "mreprparse"):
+        return len(a[0]) >= 10
     if op in ("moflen", "moflenset"):
         return int(a[0]) >= 1
     return True
@@ -733,6 +824,95 @@ def run(ctx):
     lines += ["fromint %d" % i for i in (9876543209, 9876543210, 9876543211, 9999999999, 10 ** 10, -1, -123)]
     ctx.compare("random-notations", [l for l in lines if not l.startswith("reprrt ")])
     ctx.compare("random-repr-eval", [l for l in lines if l.startswith("reprrt ")], use_model=False)
+
+    # ---- repr texts read back: the REAL repr text of the implementation (computed here, on this tree) is handed to
+    # Python's eval (implementation side) and to the model's parser Model.parseRepr / evalMeshRepr (model side)
+    from permuta import Perm as RP, MeshPatt as RM        # pylint: disable=import-outside-toplevel
+    worker_init()                                           # (lenient() below evaluates texts in this process)
+    lines = []
+    seqs = list(perms)
+    seqs += [s_ for n in range(4) for s_ in itertools.product((0, 1, 3, 10), repeat=n)]       # any tuple of naturals
+    for _ in range(60 if quick else 600):
+        n = rng.choice([1, 2, 3, 9, 10, 11, 12, 21, 40, 99, 100, 101, 120])
+        seqs.append(structured_perm(rng, n))
+        seqs.append(tuple(rng.choice([0, 9, 10, 99, 100, 10 ** 18, 10 ** 30 + 7, rng.randrange(10 ** rng.randrange(1, 25))])
+                          for _ in range(rng.randrange(1, 6))))
+    seqs += [structured_perm(rng, n) for n in ((200, 401, 1000) if quick else (200, 401, 1000, 1001, 2500))]
+    for q in seqs:
+        lines.append("reprread %s %s" % (fseq(q), ftext(repr(RP(q)))))
+    meshes = []
+    for q in [(), (0,)]:
+        cells = [(x, y) for x in range(len(q) + 1) for y in range(len(q) + 1)]
+        for r in range(len(cells) + 1):
+            for sub in itertools.permutations(cells, r):            # every subset, handed over in every order
+                meshes.append((q, sub))
+    for _ in range(300 if quick else 3000):
+        n = rng.choice([2, 2, 3, 3, 4, 5, 9, 10, 11, 12, 30])
+        q = structured_perm(rng, n)
+        dens = rng.choice([0.03, 0.2, 0.5, 1.0])
+        cells = [(x, y) for x in range(n + 1) for y in range(n + 1) if rng.random() < dens]
+        if rng.random() < 0.3:
+            cells += [(n, n), (0, n), (n, 0), (n - 1, n), (n, n - 1)]           # (two-digit coordinates at n >= 10)
+        cells = list(set(cells))
+        rng.shuffle(cells)
+        meshes.append((q, tuple(cells)))
+    for q, cells in meshes:
+        t = repr(RM(RP(q), cells))
+        lines.append("mreprread %s %s %s" % (fseq(q), fcells(cells, sort=False), ftext(t)))
+        lines.append("mrepr %s %s" % (fseq(q), fcells(cells, sort=False)))
+    ctx.compare("repr-read", lines)
+
+    # malformed texts over the alphabet of the sub-grammar: every one-character deletion / insertion / replacement /
+    # transposition of base texts, and random token soups.  Both sides must reject (Python: eval raises or does not
+    # give a Perm / MeshPatt of plain naturals; model: parser none) or agree on the value.  Excluded (and counted in
+    # the notes): texts that Python reads leniently, see lenient().
+    cand = []
+    alpha_p = "Perm(), 0123456789"
+    alpha_m = alpha_p + "[]MshPat"
+    bases_p = ["Perm(())", "Perm((0,))", "Perm((1, 0))", "Perm((10, 2, 0))", "Perm((0, 0))", "Perm((7,))"]
+    bases_m = ["MeshPatt(Perm(()), [])", "MeshPatt(Perm((0,)), [(0, 1)])", "MeshPatt(Perm((1, 0)), [(0, 0), (2, 2)])",
+               "MeshPatt(Perm(()), [(0, 0)])", "MeshPatt(Perm((0,)), [(1, 1), (0, 0)])", "MeshPatt(Perm((0,)), [(0, 2)])",
+               "MeshPatt(Perm((0,)), [(0, 0), (0, 0)])"]
+
+    def edits(t, alpha, full):
+        out = [t]
+        for i in range(len(t) + 1):
+            for ch in (alpha if full else rng.sample(alpha, 6)):
+                out.append(t[:i] + ch + t[i:])
+                if i < len(t):
+                    out.append(t[:i] + ch + t[i + 1:])
+            if i < len(t):
+                out.append(t[:i] + t[i + 1:])
+            if i + 1 < len(t):
+                out.append(t[:i] + t[i + 1] + t[i] + t[i + 2:])
+        return out
+
+    for b in bases_p:
+        cand += [("reprparse", t) for t in edits(b, alpha_p, True)]
+        cand += [("mreprparse", t) for t in edits(b, alpha_p, False)]
+    for b in bases_m:
+        cand += [("mreprparse", t) for t in edits(b, alpha_m, not quick)]
+        cand += [("reprparse", t) for t in edits(b, alpha_m, False)[:200]]
+    toks_p = ["Perm", "Perm(", "(", ")", "))", ",", ", ", " ", "0", "1", "2", "10", "00", "01", "(0,)", "(1, 0)", "()", "(())"]
+    toks_m = toks_p + ["MeshPatt(", "[", "]", "[]", "(0, 0)", "(0, 1)", "[(0, 0)]", "Perm(())", "Perm((0,))", "Perm((0, 1))"]
+    for _ in range(1500 if quick else 20000):
+        cand.append(("reprparse", "".join(rng.choice(toks_p) for _ in range(rng.randrange(1, 8)))))
+        cand.append(("mreprparse", "".join(rng.choice(toks_m) for _ in range(rng.randrange(1, 9)))))
+    seen, lines, skipped, accepted = set(), [], [], 0
+    for op, t in cand:
+        if (op, t) in seen or not t.strip(" "):
+            continue
+        seen.add((op, t))
+        if lenient(t):
+            skipped.append(t)
+            continue
+        lines.append("%s %s" % (op, ftext(t)))
+        accepted += (_read_perm(t) if op == "reprparse" else _read_mesh(t)) != "NONE"
+    ctx.notes.append("repr-malformed: %d of %d texts excluded as read leniently by Python (eval gives a Perm / MeshPatt x "
+                     "with repr(x) != text), e.g. %r; of the %d texts kept, Python accepts %d (canonical spellings reached by "
+                     "an edit) and rejects the others"
+                     % (len(skipped), len(seen), sorted(set(skipped), key=len)[:6], len(lines), accepted))
+    ctx.compare("repr-malformed", lines)
 
     # ---- malformed / glue
     lines = []
